@@ -46,7 +46,10 @@ func (g *gen) c01check(w *world, parties []*party, where string) {
 			continue
 		}
 		sx, so := x.c.GetSSID(), owner.c.GetSSID()
-		if sx != so {
+		// while re-keying, one side completes the new exchange one message before the other: the
+		// owner then still reports the old session but has derived the new one already
+		pendingO, pendingX := otr3.VerifSnapshot(owner.c).AkeSSID, otr3.VerifSnapshot(x.c).AkeSSID
+		if sx != so && !(owner.c.IsEncrypted() && (bytes.Equal(pendingO, sx[:]) || bytes.Equal(pendingX, so[:]))) {
 			olog.viol("C01", "peer-key-owner-not-in-this-exchange", fmt.Sprintf("%s: %s is encrypted and reports the key of %s, but %s derived a different session (ssid %x vs %x)", where, x.id, owner.id, owner.id, sx, so))
 		}
 		if owner.c.IsEncrypted() && sx == so {
@@ -308,6 +311,60 @@ func (g *gen) akeScenario(w *world, recorded [][]byte) [][]byte {
 	return nil
 }
 
+
+// an established session in which one side starts a new exchange that an attacker answers with a
+// forged DH-Key (no keys needed) and which never completes, completes honestly afterwards, or is
+// tampered with like a first exchange: what the session reports must stay that of the exchange
+// it is encrypted from
+func (g *gen) rekeyScenario(w *world) {
+	version := 2 + g.r.Intn(2)
+	n := g.newAkeNet(w, version)
+	n.run(nil)
+	if !n.a.c.IsEncrypted() || !n.b.c.IsEncrypted() || w.dead {
+		return
+	}
+	g.dist["ake:rekey"]++
+	w.tick(3600)
+	v, o := n.a, n.b
+	if g.r.Intn(2) == 0 {
+		v, o = n.b, n.a
+	}
+	q := []byte("?OTRv2?")
+	if version == 3 {
+		q = []byte("?OTRv3?")
+	}
+	_, commit, _, pan := w.recv(v, q) // v starts a new exchange
+	if pan || len(commit) == 0 {
+		return
+	}
+	g.c01check(w, n.all, "after starting a new exchange inside a session")
+	sv := otr3.VerifSnapshot(v.c)
+	val := g.bytesN(192)
+	val[0] &= 0x7f // in range
+	forged := dhKeyWire(version, sv.TheirTag, sv.OurTag, val)
+	_, reveal, _, pan := w.recv(v, forged)
+	if pan {
+		olog.viol("C13", "receive-panics", "Receive panicked on a forged DH-Key during re-keying")
+		return
+	}
+	_ = reveal // goes nowhere: the attacker cannot continue
+	g.c01check(w, n.all, "after a forged DH-Key answered a re-keying DH-Commit")
+	g.c01probe(w, n.a, n.b)
+	switch g.r.Intn(3) {
+	case 0: // the exchange is simply never completed
+	case 1: // the genuine peer then starts and completes an exchange of its own
+		w.tick(3600)
+		_, ts, _, _ := w.recv(o, q)
+		n.push(o, ts)
+		n.run(nil)
+	case 2: // the original commit reaches the peer after all
+		n.push(v, commit)
+		n.run(nil)
+	}
+	g.c01check(w, n.all, "at quiescence after an attacked re-keying")
+	g.c01probe(w, n.a, n.b)
+}
+
 // E holds key 2 and runs two honest library instances, e1 facing A and e2 facing B; besides relaying
 // inside its own sessions it tries to splice messages of one exchange into the other.
 func (g *gen) mitmScenario(w *world, version int) {
@@ -387,6 +444,10 @@ func init() {
 		w := newWorld(g)
 		var recorded [][]byte
 		for i := 0; i < n; i++ {
+			if i%6 == 5 {
+				g.rekeyScenario(w)
+				continue
+			}
 			if rec := g.akeScenario(w, recorded); rec != nil && len(rec) >= 4 {
 				recorded = rec
 			}
